@@ -197,3 +197,138 @@ Proof.
   - unfold pix_vec. rewrite qnth_map_seq by lia. rewrite rev_rev_idx by exact Hi. reflexivity.
   - apply pix_vec_length.
 Qed.
+
+(* ====================================================================================================
+   Histories of one dataset (round 4): reads interleaved with update_values_from_data, coords = ..., and the operations
+   that change neither the shape nor the coordinate object.
+   ==================================================================================================== *)
+From GV Require Import gen.Gen_coordcomp.
+
+(* the hidden part of the state (number of world components, what the links were built with) is a function of the visible part
+   (coordinate object, shape) *)
+Definition hwf (s : hstate) : Prop :=
+  hs_lcid s = hs_cid s /\ hs_lcoords s = hs_coords s /\ hs_ln s = hs_wn s /\
+  hs_wn s = (if (hs_cid s =? 0)%Z then 0%nat else length (hs_shape s)).
+
+(* the documented domain of update_values_from_data: the number of dimensions is kept (F-C15d otherwise) *)
+Definition op_keeps_ndim (n : nat) (o : hop) : Prop :=
+  match o with HUpdateValues _ _ sh => length sh = n | _ => True end.
+
+(* the visible state after one operation *)
+Definition hcur (v : Z * coords * list nat) (o : hop) : Z * coords * list nat :=
+  let '(cid, c, sh) := v in
+  match o with
+  | HUpdateValues cid' c' sh' => if (cid =? cid')%Z then (cid, c, sh') else (cid', c', sh')
+  | HSetCoords cid' c' => if (cid =? cid')%Z then (cid, c, sh) else (cid', c', sh)
+  | _ => (cid, c, sh)
+  end.
+Definition hbuild3 (v : Z * coords * list nat) : hstate := let '(cid, c, sh) := v in hbuild cid c sh.
+
+(* the specification of a history: every read is the read of a dataset built afresh from the current coordinate object and shape *)
+Fixpoint hrun_spec (v : Z * coords * list nat) (h : list hop) : list tree :=
+  match h with
+  | [] => []
+  | o :: r => match snd (hstep (hbuild3 v) o) with
+              | Some t => t :: hrun_spec (hcur v o) r
+              | None => hrun_spec (hcur v o) r
+              end
+  end.
+
+(* equivalence of the model's setter with the translated condition of Data.coords.setter: it rebuilds exactly when the object changes *)
+Lemma hset_coords_spec : forall s cid c,
+  hset_coords s cid c =
+  if (hs_cid s =? cid)%Z then s
+  else hrebuild (mkH cid c (hs_shape s) (hs_wn s) (hs_lcid s) (hs_lcoords s) (hs_ln s)).
+Proof.
+  intros s cid c. unfold hset_coords, coords_setter_rebuilds, coords_setter_needs_components, hncomp.
+  destruct (hs_cid s =? cid)%Z; reflexivity.
+Qed.
+
+(* equivalence with the translated CoordinateComponent.data / __getitem__: both are _calculate at the time of the read *)
+Lemma hread_world_calc : forall s v a,
+  hread_world s v a = over_view (hs_shape s) (vw_of v) (fun ss => world_value (hs_coords s) ss a) enc_vals (err 2).
+Proof. intros s [vw|] a; reflexivity. Qed.
+
+Lemma hwf_fresh : forall s, hwf s <-> s = hbuild (hs_cid s) (hs_coords s) (hs_shape s).
+Proof.
+  intros [cid c sh wn lcid lc ln]. unfold hwf, hbuild, hrebuild. simpl. split.
+  - intros (H1 & H2 & H3 & H4). subst. reflexivity.
+  - intros H. injection H as H1 H2 H3 H4. repeat split; congruence.
+Qed.
+
+Lemma hwf_hbuild : forall cid c sh, hwf (hbuild cid c sh).
+Proof. intros. unfold hwf, hbuild, hrebuild. simpl. repeat split. Qed.
+
+Lemma hstep_visible : forall s o, hwf s -> op_keeps_ndim (length (hs_shape s)) o ->
+  let s' := fst (hstep s o) in
+  hwf s' /\ (hs_cid s', hs_coords s', hs_shape s') = hcur (hs_cid s, hs_coords s, hs_shape s) o /\
+  length (hs_shape s') = length (hs_shape s).
+Proof.
+  intros s o (H1 & H2 & H3 & H4) Hk. destruct o as [v|ins|cid c sh|cid c|sh v|]; simpl in *.
+  - repeat split; assumption.
+  - repeat split; assumption.
+  - unfold hupdate_values. rewrite hset_coords_spec. simpl.
+    destruct (hs_cid s =? cid)%Z eqn:E; simpl.
+    + unfold hwf; simpl. rewrite Hk. repeat split; try assumption; try congruence.
+    + unfold hwf; simpl. repeat split; try assumption.
+  - rewrite hset_coords_spec. destruct (hs_cid s =? cid)%Z eqn:E; simpl.
+    + unfold hwf. repeat split; assumption.
+    + unfold hwf; simpl. repeat split.
+  - repeat split; assumption.
+  - repeat split; assumption.
+Qed.
+
+Lemma history_invariant : forall h s, hwf s -> Forall (op_keeps_ndim (length (hs_shape s))) h ->
+  hwf (hfinal s h) /\ length (hs_shape (hfinal s h)) = length (hs_shape s).
+Proof.
+  induction h as [|o r IH]; intros s Hwf Hk.
+  - split; [exact Hwf|reflexivity].
+  - inversion Hk as [|? ? Ho Hr]; subst. unfold hfinal. simpl.
+    destruct (hstep_visible s o Hwf Ho) as (Hwf' & _ & Hlen).
+    fold (hfinal (fst (hstep s o)) r).
+    destruct (IH (fst (hstep s o)) Hwf') as (A & B).
+    + rewrite Hlen. exact Hr.
+    + split; [exact A|]. rewrite B. exact Hlen.
+Qed.
+
+(* no hidden state: after any history the whole state is the one of a dataset built afresh from the current object and shape *)
+Lemma history_no_hidden_state : forall h s, hwf s -> Forall (op_keeps_ndim (length (hs_shape s))) h ->
+  let s' := hfinal s h in s' = hbuild (hs_cid s') (hs_coords s') (hs_shape s').
+Proof. intros h s Hwf Hk. simpl. apply hwf_fresh. apply history_invariant; assumption. Qed.
+
+Lemma hstep_snd_visible : forall s o, hwf s ->
+  snd (hstep s o) = snd (hstep (hbuild (hs_cid s) (hs_coords s) (hs_shape s)) o).
+Proof. intros s o Hwf. apply hwf_fresh in Hwf. rewrite <- Hwf. reflexivity. Qed.
+
+(* every read of a history returns what a dataset built afresh from the current coordinate object and the current shape returns *)
+Lemma history_reads_current : forall h s, hwf s -> Forall (op_keeps_ndim (length (hs_shape s))) h ->
+  hrun s h = hrun_spec (hs_cid s, hs_coords s, hs_shape s) h.
+Proof.
+  induction h as [|o r IH]; intros s Hwf Hk; [reflexivity|].
+  inversion Hk as [|? ? Ho Hr]; subst. simpl.
+  destruct (hstep_visible s o Hwf Ho) as (Hwf' & Hvis & Hlen).
+  rewrite <- (hstep_snd_visible s o Hwf).
+  destruct (hstep s o) as [s' out] eqn:E. simpl in *.
+  rewrite <- Hvis. rewrite <- Hlen in Hr.
+  destruct out; rewrite (IH s' Hwf' Hr); reflexivity.
+Qed.
+
+Lemma link_w2p2_same : forall c ss i idx, link_w2p2 c c ss i idx = link_w2p c ss i idx.
+Proof. reflexivity. Qed.
+
+(* what the reads after a history are made of: the world attributes, the pixel->world links and the world->pixel links all come from
+   the CURRENT coordinate object applied to the pixel grid of the view *)
+Lemma history_values_direct : forall h s, hwf s -> Forall (op_keeps_ndim (length (hs_shape s))) h ->
+  let s' := hfinal s h in
+  forall ss a idx, (a < cdim (hs_coords s'))%nat ->
+    world_value (hs_coords s') ss a idx == p2w (hs_coords s') (cdim (hs_coords s') - 1 - a) (pix_vec (cdim (hs_coords s')) ss idx) /\
+    link_p2w (hs_lcoords s') ss a idx == p2w (hs_coords s') (cdim (hs_coords s') - 1 - a) (pix_vec (cdim (hs_coords s')) ss idx) /\
+    (left_inverse (hs_coords s') -> right_inverse (hs_coords s') ->
+     link_w2p2 (hs_lcoords s') (hs_coords s') ss a idx == pixarr ss a idx).
+Proof.
+  intros h s Hwf Hk s' ss a idx Ha.
+  destruct (history_invariant h s Hwf Hk) as ((H1 & H2 & H3 & H4) & _). fold s' in H1, H2, H3, H4.
+  rewrite H2. split; [apply world_attribute_direct; exact Ha|]. split.
+  - apply links_equal_direct_p2w. exact Ha.
+  - intros HL HR. rewrite link_w2p2_same. apply link_w2p_is_pixel; assumption.
+Qed.
